@@ -38,6 +38,42 @@ func haveCLI() bool {
 	return true
 }
 
+// runCLIFileStdin is runCLI with stdin redirected from a regular file
+// (jd ... < file) instead of a pipe.
+func runCLIFileStdin(bin string, args []string, stdin string, dir string) CLIResult {
+	f, err := os.CreateTemp(dir, "stdin")
+	if err != nil {
+		panic(err)
+	}
+	defer os.Remove(f.Name())
+	f.WriteString(stdin)
+	f.Seek(0, 0)
+	defer f.Close()
+	ctx, cancel := context.WithTimeout(context.Background(), 20*time.Second)
+	defer cancel()
+	cmd := exec.CommandContext(ctx, cliBin(bin), args...)
+	cmd.Dir = dir
+	var so, se bytes.Buffer
+	cmd.Stdout, cmd.Stderr = &so, &se
+	cmd.Stdin = f
+	err = cmd.Run()
+	res := CLIResult{Stdout: so.String(), Stderr: se.String()}
+	if ctx.Err() != nil {
+		res.TimedOut = true
+		res.Status = -1
+		return res
+	}
+	if err != nil {
+		if ee, ok := err.(*exec.ExitError); ok {
+			res.Status = ee.ExitCode()
+		} else {
+			res.Status = -2
+			res.Stderr += "\n" + err.Error()
+		}
+	}
+	return res
+}
+
 // runCLI runs a jd binary in dir. stdin == nil leaves stdin empty/closed.
 func runCLI(bin string, args []string, stdin *string, dir string) CLIResult {
 	ctx, cancel := context.WithTimeout(context.Background(), 20*time.Second)
